@@ -10,7 +10,12 @@ def draw_configs(name, n, **force):
     for i in range(n):
         rng = rng_for("cfg", name, i)
         f = {k: (v(rng) if callable(v) else v) for k, v in force.items()}
-        out.append(sim.gen_config(rng, **f))
+        c = sim.gen_config(rng, **f)
+        if i % 6 == 4:
+            c["flagtypes"] = True         # read by sim.build_objects: boolean options handed over as numpy.bool_ / 0 / 1
+        if i % 8 == 5 and not force.get("no_reuse"):
+            c["reuse_model"] = True       # read by trace.trace_run: the traced run is the second run of a re-used model object
+        out.append(c)
     return out
 
 
